@@ -26,6 +26,31 @@ CLAIMED = {
          '(reference model and self-composition with start=never/start=0), for every (s,q,t0) of the grid; each unchanged-claim has an on-step reachability twin.',
     note='Exact real arithmetic: bit-identity is proved as term identity (state passed through unchanged); counter overflow excluded; roots abstracted as UFs.',
     design='§3 C04', technique='jaxpr->SMT symbolic evaluation with symbolic step counter, z3 (LIA+NRA+UF)'),
+  'C05': dict(
+    text='Bounded SMT verification (z3, exact reals) of the grafting contract on the real update jaxprs: Distributed Shampoo is evaluated on one symbolic '
+         'state with graft type X and with graft NONE, and z3 proves update = u0 * |closed-form graft step| / (|preconditioned grad| + eps) with a '
+         'non-negative multiplier (hence same direction, transplanted norm, zero stays zero), and update = graft step before the start step and for '
+         'excluded parameters, for all 6 grafting types, full and low-rank-compressed preconditioners; Tearfree: grafting.graft around the real '
+         'Shampoo/Sketchy transform versus the transform traced alone.',
+    note='Exact reals; norm equality follows from the proved multiplier identity by homogeneity of the Euclidean norm; roots/eigh/svd abstracted; '
+         'FD-sketched and int16-quantized DS modes not covered (stated in evidence).',
+    design='§3 C05', technique='jaxpr->SMT symbolic evaluation, self-composition (grafted vs un-grafted trace), z3'),
+  'C08': dict(
+    text='Bounded SMT verification of non-interference as 2-safety by self-composition on the real update jaxprs (Distributed Shampoo and Tearfree Shampoo): '
+         'two symbolic runs share only the variables the property allows (block 0 / the parameter itself); z3 proves block 0\'s update and state, a block as a '
+         'separate leaf, and a parameter with/without a companion of another shape are equal for all values; found (and after the fix guards) the shared '
+         'eigenvalue cut-off of tearfree Shampoo.',
+    note='Roots/eigh are uninterpreted functions of their own unpadded block (padding invariance assumed; body is C01); graft NONE for I1/I2 because the '
+         'property exempts the parameter-level graft norm; one step from an arbitrary shared state.',
+    design='§3 C08', technique='jaxpr->SMT symbolic evaluation, 2-safety self-composition, UF-abstracted roots, z3'),
+  'C15': dict(
+    text='Bounded SMT verification (z3, exact reals, symbolic learning rate) of the real tearfree(lr, options).update jaxpr against a reference of the '
+         'documented composition: per-(axis, block) covariance update on the merged/zero-padded gradient, the decomposed matrix is that covariance, each root '
+         'is the masked eigen-form with the cut-off relative to that block\'s own largest eigenvalue, and update = -lr(t)*momentum(weight decay(graft(...))) '
+         'for all states/gradients/params/counters; exact linearity in lr.',
+    note='eigh/svd/qr outputs are fresh variables per distinct input (free contract); exact reals; that the eigen-form equals the matrix inverse root needs '
+         'orthonormality and is declined (stretch); the Sketchy sketch update itself is C09.',
+    design='§3 C15', technique='jaxpr->SMT symbolic evaluation vs reference model, stubbed decompositions, z3'),
 }
 NA = {
   'C07': 'decided by tracing each configuration (abstract evaluation), no input/step/state variable is left for a solver to range over; '
